@@ -51,6 +51,25 @@ def eval_liveness(model):
   return vn, ev, env
 
 
+def closure_context(live_in):
+  """(assumption: node has a scope, default configuration; premise: some
+  reaching non-lambda function exists) -- or (assume, None) if the rule is gone."""
+  hs = [a for a in live_in.f.atoms if a.startswith('OPAQUE[anno.hasanno')]
+  assume = atom(hs[0]) if hs else TRUE
+  for a in live_in.f.atoms:
+    if 'include_annotations' in a:
+      # default configuration: include_annotations is True
+      assume = assume & (~atom(a) if 'not self.include_annotations' in a else atom(a))
+  ex = [a for a in live_in.f.atoms if a.startswith('EXISTS[reaching')]
+  if not ex:
+    return assume, None
+  reach = atom(ex[0])
+  for a in live_in.f.atoms:
+    if 'lamba_check' in a or 'ast.Lambda' in a:
+      reach = reach & ~atom(a)
+  return assume, reach
+
+
 def check(model, rep, tier):
   rep.not_decided = ('that the fixed point over-approximates real future reads '
                      '(soundness w.r.t. executions)')
